@@ -51,6 +51,21 @@ def default_profile(rng, tier="quick"):
     return p
 
 
+#: dimensions added on top of the classic program family (nested for / if / calls / arithmetic); each is drawn per case
+EXOTIC = ("partial", "local_callee", "switches", "multiblock", "while_loops", "state_loops", "head_launch", "stale_links", "memory",
+          "next_iv", "index_vals", "relaunch", "pure_loop")
+
+
+def classic(rng, prof, p=0.3):
+    """Swarm master switch: in a share of the cases every added dimension is off, so that the classic family (where most of the
+    structural defects of the passes live) keeps its share of the budget however many dimensions are added."""
+    if rng.random() < p:
+        for k in EXOTIC:
+            if k in prof:
+                prof[k] = 0
+    return prof
+
+
 class AccfgGen:
     def __init__(self, rng, profile):
         self.r = rng
